@@ -284,6 +284,20 @@ VARIANTS = [
     V("twin: thread-pool arm supplies sort at the hand-over instead of in the partial", ("C16", "C03"), "", "core.py",
       'executor.submit(partial(_factorize_single, sort=sort, reindex=reindex), groupvar, expect)',
       'executor.submit(partial(_factorize_single, reindex=reindex), groupvar, expect, sort=sort)', expect="silent"),
+    V("requested quantile levels de-duplicated in the blueprint's copy", ("C18",), "R-KWPASS", "aggregations.py",
+      '        agg.finalize_kwargs = copy.deepcopy(finalize_kwargs)\n',
+      '        agg.finalize_kwargs = copy.deepcopy(finalize_kwargs)\n        if "q" in agg.finalize_kwargs and not xrutils.is_scalar(agg.finalize_kwargs["q"]):\n'
+      '            agg.finalize_kwargs["q"] = tuple(dict.fromkeys(float(v) for v in agg.finalize_kwargs["q"]))\n', must_mention="dict.fromkeys"),
+    V("twin: requested quantile levels converted elementwise to floats", ("C18",), "", "aggregations.py",
+      '        agg.finalize_kwargs = copy.deepcopy(finalize_kwargs)\n',
+      '        agg.finalize_kwargs = copy.deepcopy(finalize_kwargs)\n        if "q" in agg.finalize_kwargs and not xrutils.is_scalar(agg.finalize_kwargs["q"]):\n'
+      '            agg.finalize_kwargs["q"] = tuple(float(v) for v in agg.finalize_kwargs["q"])\n', expect="silent"),
+    V("intermediate fill sentinels resolved against the final dtype", ("C06", "C04"), "R-SLOTFILL", "aggregations.py",
+      '        dtypes._get_fill_value(dt, fv)\n        for dt, fv in zip(agg.dtype["intermediate"], agg.fill_value["intermediate"])',
+      '        dtypes._get_fill_value(final_dtype, fv) for fv in agg.fill_value["intermediate"]', must_mention="final_dtype"),
+    V("twin: intermediate fill sentinels resolved through a shared index", ("C06", "C04"), "", "aggregations.py",
+      '        dtypes._get_fill_value(dt, fv)\n        for dt, fv in zip(agg.dtype["intermediate"], agg.fill_value["intermediate"])',
+      '        dtypes._get_fill_value(agg.dtype["intermediate"][i], fv) for i, fv in enumerate(agg.fill_value["intermediate"])', expect="silent"),
     V("dtype promotion memoised with an untyped key", ("C14",), "R-MEMO", "xrdtypes.py", '        dtype = np.result_type(dtype, fill_value)\n    return dtype\n',
       '        dtype = _promote_for_fill_value(dtype, fill_value)\n    return dtype\n\n\n@functools.lru_cache\ndef _promote_for_fill_value(dtype: np.dtype, fill_value) -> np.dtype:\n    return np.result_type(dtype, fill_value)\n', must_mention="typed"),
     V("twin: dtype promotion memoised with typed=True", ("C14",), "", "xrdtypes.py", '        dtype = np.result_type(dtype, fill_value)\n    return dtype\n',
